@@ -114,6 +114,8 @@ pub enum State {
     FaultyGenericError,
     /// ECU is in faulty bus state.
     FaultyBusError,
+    /// ECU reports a state code this driver does not know.
+    Unknown(u8),
 }
 
 impl State {
@@ -123,6 +125,7 @@ impl State {
             State::Ident => 0x16,
             State::FaultyGenericError => 0xfa,
             State::FaultyBusError => 0xfb,
+            State::Unknown(byte) => byte,
         }
     }
 }
@@ -134,7 +137,7 @@ impl From<u8> for State {
             0x16 => State::Ident,
             0xfa => State::FaultyGenericError,
             0xfb => State::FaultyBusError,
-            _ => panic!("Invalid state byte: {:#x}", byte),
+            _ => State::Unknown(byte),
         }
     }
 }
@@ -191,6 +194,7 @@ impl VecraftStatusMessage {
             State::Ident => Ok(()),
             State::FaultyGenericError => Err(J1939UnitError::BusError),
             State::FaultyBusError => Err(J1939UnitError::BusError),
+            State::Unknown(_) => Err(J1939UnitError::UnknownState),
         }
     }
 }
